@@ -108,6 +108,14 @@ def shared_templates(pid, repo, ctx):
     rule_s = f'R{int(pid[1:])}.S'
     for p_, q_, node, msg in hits:
         ctx.violation(rule_s, p_, q_, node, msg, construct=ast_src(node))
+    # T-SHARED for class bodies: a mutable object created in a class body of an anchored file and modified in place anywhere
+    shared = sharedstate.class_level_mutables(repo, files)
+    if shared:
+        for p_, q_, node, text in sharedstate.inplace_uses(repo, shared):
+            owners = sorted({c_ for a_ in shared if a_ in text for (_p, c_, _n) in shared[a_]})
+            hits.append((p_, q_, node, text))
+            ctx.violation(rule_s, p_, q_, node, f'{text}: the object is created once in the class body of {", ".join(owners) or "a class"} and shared by every instance that has not rebound the attribute, '
+                          'so a change made through one instance is seen by all others', construct=ast_src(node))
     if not hits:
         nfun = sum(1 for p_, _q, _f in repo.all_functions() if p_ in files)
         ctx.ok(rule_s, '', '', 0, f'T-SHARED: none of the {nfun} functions in the anchored files keeps or modifies a mutable default argument ({n_def} mutable defaults present)',
